@@ -729,7 +729,7 @@ class Interp:
         return None
 
     def e_Lambda(self, e, frame):
-        return Residual(unparse(e))
+        return _Closure(e, frame, self)
 
     def e_ListComp(self, e, frame):
         if len(e.generators) != 1:
@@ -785,6 +785,8 @@ class Interp:
             ckey = f.id
             if f.id in frame and isinstance(frame[f.id], Residual):
                 ckey = frame[f.id].text
+            if f.id in frame and isinstance(frame[f.id], _Closure):
+                return frame[f.id](*[self.eval(a, frame) for a in e.args])
         else:
             raise Undecidable(f"computed callee {full}")
         args = [self.eval(a.value if isinstance(a, ast.Starred) else a, frame) for a in e.args]
@@ -813,6 +815,16 @@ class Interp:
                     return Residual(full)
             elif ckey == pat or ckey.endswith("." + pat):
                 return Residual(full)
+        # pure stdlib modules on concrete values
+        if ckey and ckey.split(".")[0] in ("operator", "math") and ckey.count(".") == 1:
+            import math as _math
+            mod = operator if ckey.startswith("operator.") else _math
+            fn = getattr(mod, ckey.split(".")[1], None)
+            if fn is not None and not any(isinstance(a, (Residual, Obj)) for a in args):
+                try:
+                    return fn(*args)
+                except Exception as ex:  # pylint: disable=W0718
+                    raise Raised(type(ex).__name__)
         # builtins on concrete values
         if recv is None and meth in _BUILTINS and meth not in frame:
             if meth == "isinstance":
@@ -855,6 +867,24 @@ class Obj:
 
     def __hash__(self):
         return hash(("O", self.name))
+
+    def __deepcopy__(self, memo):
+        return self
+
+
+class _Closure:
+    """a lambda of the analysed source, callable by the interpreter (e.g. as a sort key)"""
+
+    def __init__(self, node, frame, interp):
+        self.node = node
+        self.frame = frame
+        self.interp = interp
+
+    def __call__(self, *args):
+        inner = dict(self.frame)
+        for a, v in zip(self.node.args.args, args):
+            inner[a.arg] = v
+        return self.interp.eval(self.node.body, inner)
 
     def __deepcopy__(self, memo):
         return self
